@@ -210,6 +210,20 @@ CHECKS["C09"] = dict(
     technique="TLC determinacy as oracle + reuse/concurrency replays on one Go object + Go race detector",
     engine="tlc")
 
+CHECKS["C01"] = dict(
+    category="model_checking",
+    text="CLAIMED FOR A SLICE ONLY: the window and recurrence cores whose documented formula is exact on an integer lattice - "
+         "MovingSum, MovingMax, MovingMin, SMA at periods 1/2/4, OBV. spec/Window.tla holds the documented function of the window and "
+         "the construction the code uses (Duplicate, Shift(P,0), closure with running sum / multiset Insert-Remove, Skip(P-1)); TLC "
+         "compares both over every sequence over {-1,0,1,2} up to length 5-6 and P up to 3-4 and emits each with the documented "
+         "result; the real indicators are run on all of them and compared exactly.",
+    design_ref="DESIGN.md 2.3, 5 (C01), 6",
+    note="The arithmetic of the other ~55 indicator types (one pure float formula each) is numeric accuracy, which an explicit-state "
+         "TLA+ model cannot decide: NOT covered. Their stream structure (counts, alignment, look-ahead, termination) is covered by "
+         "C02-C04.",
+    technique="TLC comparison of documented window function vs the code's construction + exhaustive replay on the real indicators",
+    engine="tlc")
+
 NOT_APPLICABLE = {
     "C15": "numeric range invariants of float formulas: no discrete state or transition for a TLA+ model to decide (DESIGN.md 6)",
     "C18": "relation between two float executions (homogeneity): numeric, not a state machine TLC can check (DESIGN.md 6)",
